@@ -265,3 +265,33 @@ func verifC04Target(from, count, L int) {
 		verifAssert(got == want, "c04: for a hostname request the pattern is applied to the documented target (URL or bare hostname)")
 	}
 }
+
+// verifC04Parse: the values the parser stores for grammar rule i are exactly the values written
+// in its text (as a set, per modifier).  The expected list comes from the driver's grammar.
+func verifC04Parse(i int) {
+	text := verifKeywordList("c04text")[i]
+	want := verifKeywordList(vn("c04want", i, ""))
+	r, err := NewNetworkRule(text, 1)
+	verifAssert(err == nil && r != nil, "c04: a grammar rule is accepted by the parser")
+	if err != nil || r == nil {
+		return
+	}
+	var got []string
+	vals := VerifModifierValues(r)
+	for _, m := range []string{"tp", "type", "domain", "denyallow", "dnstype", "ctag", "client"} {
+		for _, v := range vals[m] {
+			got = append(got, m+"="+v)
+		}
+	}
+	verifReach("c04.parse")
+	verifAssert(len(got) == len(want), "c04: the parser stores exactly the values written in the modifier (count) ["+text+"]")
+	for _, w := range want {
+		found := false
+		for _, g := range got {
+			if g == w {
+				found = true
+			}
+		}
+		verifAssert(found, "c04: the parser stores exactly the values written in the modifier ["+text+"]")
+	}
+}
